@@ -32,6 +32,54 @@ class _Continue(Exception):
     pass
 
 
+class Raised(Exception):
+    """The evaluated code raises an exception of class `cls` (finite-domain evaluation of guards)."""
+
+    def __init__(self, cls):
+        super().__init__(cls)
+        self.cls = cls
+
+
+class Record:
+    """A constant object with named attributes (stands for `self` in finite-domain evaluation of a method)."""
+
+    def __init__(self, **attrs):
+        self.attrs = dict(attrs)
+
+    def __repr__(self):
+        return f"Record({self.attrs})"
+
+
+class Sink:
+    """Stands for an output file in finite-domain evaluation: records what is written."""
+
+    def __init__(self):
+        self.text = []
+
+    def __repr__(self):
+        return f"Sink({self.text})"
+
+
+class LineFeed:
+    """Stands for a LineIterator in finite-domain evaluation: hands out the given constant lines."""
+
+    def __init__(self, lines):
+        self.lines = list(lines)
+        self.pos = 0
+
+    def take(self):
+        if self.pos >= len(self.lines):
+            raise NotConstant("line feed exhausted")
+        self.pos += 1
+        return self.lines[self.pos - 1]
+
+
+def feed_next(feed, *default):
+    if not isinstance(feed, LineFeed):
+        raise NotConstant("next() on something else than the line feed")
+    return feed.take()
+
+
 class Opaque:
     """A value known only by name (e.g. a unit constant or external object)."""
 
@@ -365,6 +413,10 @@ class _Env:
                 return self.ce.global_value(r[1], r[2])
             return self.ce._resolved_value(r)
         base = self.eval(n.value)
+        if isinstance(base, Record):
+            if n.attr in base.attrs:
+                return base.attrs[n.attr]
+            raise NotConstant(f"record has no attribute {n.attr}")
         if isinstance(base, Opaque):
             full = base.name + "." + n.attr
             if full in self.ce.externals:
@@ -442,6 +494,11 @@ class _Env:
         return self._apply(callee, args, kwargs)
 
     def _method(self, base, attr, args, kwargs):
+        if isinstance(base, Sink):
+            if attr == "write" and len(args) == 1 and isinstance(args[0], str) and not kwargs:
+                base.text.append(args[0])
+                return len(args[0])
+            raise NotConstant(f"method {attr} on an output sink not whitelisted")
         if isinstance(base, Opaque):
             return self._apply(Opaque(base.name + "." + attr), args, kwargs)
         for t, allowed in _SAFE_METHODS.items():
@@ -631,6 +688,11 @@ class _Env:
         return
 
     def s_Raise(self, st):
+        if getattr(self.ce, "allow_raise", False) and st.exc is not None:
+            e = st.exc.func if isinstance(st.exc, ast.Call) else st.exc
+            nm = e.id if isinstance(e, ast.Name) else getattr(e, "attr", None)
+            if nm:
+                raise Raised(nm)
         raise NotConstant("initialiser raises")
 
 
